@@ -93,7 +93,7 @@ class Keyed(ciw.dists.Distribution):
             v = self.table[self.k % len(self.table)]
             self.k += 1
             return v
-        return self.table[(ind.id_number * 3 + len(ind.data_records)) % len(self.table)]
+        return self.table[(ind.id_number * 7 + 3 * len(ind.data_records)) % len(self.table)]
 
 
 class Bad(ciw.dists.Distribution):
